@@ -1220,8 +1220,11 @@ fn calculate_named_arg_order(
         }
     }
     for (i, default_val) in &func_arg_info.default_args {
-        if reordered_args[*i].is_none() {
-            reordered_args[*i] = Some(default_val.clone());
+        // (a duplicated parameter name makes the slots fewer than the parameters)
+        if let Some(slot) = reordered_args.get_mut(*i)
+            && slot.is_none()
+        {
+            *slot = Some(default_val.clone());
         }
     }
     let reordered_args: Vec<_> = reordered_args.iter().flatten().cloned().collect();
